@@ -531,6 +531,7 @@ func main() {
 		seed, _ := strconv.ParseUint(os.Args[2], 10, 64)
 		n, _ := strconv.Atoi(os.Args[3])
 		out := openOut(os.Args[4])
+		stuck := 0
 		for i := 0; i < n; i++ {
 			r := NewRng(seed, uint64(i))
 			first, threads, sched := genReloadConc(r)
@@ -544,6 +545,12 @@ func main() {
 			}
 			noteInput(fmt.Sprintf("reloadconc first-build-ok=%v threads=%s schedule=%s", first, threads, ss))
 			line, c18 := runReloadConc(first, threads, sched)
+			if line == "STUCK" {
+				// every stuck case costs its waiting time: after three of them the stream ends (the verdicts are reported)
+				if stuck++; stuck > 3 {
+					break
+				}
+			}
 			out.count(fmt.Sprintf("threads%d", len(threads)))
 			overlap := false // a request or a store falls inside another Reload's build
 			open_ := map[int]bool{}
